@@ -147,6 +147,11 @@ mod value_type;
 mod version;
 mod vlog;
 
+#[cfg(lsm_verif)]
+#[doc(hidden)]
+#[allow(missing_docs, clippy::missing_panics_doc, clippy::must_use_candidate)]
+pub mod verif;
+
 /// User defined key (byte array)
 pub type UserKey = Slice;
 
